@@ -9,7 +9,7 @@
 use crate::platform::{self, FileExt};
 use bytes::Buf;
 use futures_core::Stream;
-use futures_util::stream;
+use futures_util::stream::{self, StreamExt as _};
 use http::header::{HeaderMap, HeaderValue};
 use std::error::Error as StdError;
 use std::io;
@@ -161,7 +161,9 @@ where
             },
         );
         let _: &dyn Stream<Item = Result<Self::Data, Self::Error>> = &stream;
-        Box::pin(stream)
+        // `Unfold` panics if polled again after it ended; the length-checking body does poll once
+        // more to make sure the stream really is over, and so may any consumer.
+        Box::pin(stream.fuse())
     }
 
     fn add_headers(&self, h: &mut HeaderMap) {
